@@ -1,0 +1,61 @@
+//go:build verif
+
+package concurrent
+
+// Contracts for the deductive verifier in /verif (govc). Only compiled with -tags verif.
+//
+// Only the sequential Promise laws are within reach: the promise's state lives in a one-slot channel,
+// modelled as a mailbox touched by one goroutine at a time (mboxfull / mbox are ghost views of it).
+// Everything quantified over schedules is outside this technique.
+
+//@ mailbox Promise.message
+
+// fulfill: the mailbox is never left empty; an unset or mutable promise takes the value; an immutable set
+// promise refuses and keeps its value (and, unless relaying, its error state); a failed promise refuses.
+//@ func (*Promise).fulfill
+//@   property C19
+//@   requires p != nil && p.message != nil
+//@   ensures [never-empty] mboxfull(p.message)
+//@   ensures [first]      !old(mboxfull(p.message)) ==> err == nil && mbox(p.message).Value == value && mbox(p.message).Err == nil
+//@   ensures [immutable]  old(mboxfull(p.message)) && old(mbox(p.message)).Err == nil && !p.mutable ==> err != nil && mbox(p.message).Value == old(mbox(p.message)).Value
+//@   ensures [unchanged]  old(mboxfull(p.message)) && old(mbox(p.message)).Err == nil && !p.mutable && !p.relay ==> mbox(p.message) == old(mbox(p.message))
+//@   ensures [mutable]    old(mboxfull(p.message)) && old(mbox(p.message)).Err == nil && p.mutable ==> err == nil && mbox(p.message).Value == value && mbox(p.message).Err == nil
+//@   ensures [failed]     old(mboxfull(p.message)) && old(mbox(p.message)).Err != nil ==> err != nil && mbox(p.message).Value == old(mbox(p.message)).Value && mbox(p.message).Err != nil
+//@   assigns mbox(p.message)
+
+//@ func (*Promise).Fulfill
+//@   property C19
+//@   requires p != nil && p.message != nil
+//@   ensures [never-empty] mboxfull(p.message)
+//@   ensures [first]      !old(mboxfull(p.message)) ==> result == nil && mbox(p.message).Value == value && mbox(p.message).Err == nil
+//@   ensures [unchanged]  old(mboxfull(p.message)) && old(mbox(p.message)).Err == nil && !p.mutable && !p.relay ==> result != nil && mbox(p.message) == old(mbox(p.message))
+//@   assigns mbox(p.message)
+
+// fail: only an unset (or value-less, error-less) promise can be failed; the mailbox is never left empty.
+//@ func (*Promise).fail
+//@   property C19
+//@   requires p != nil && p.message != nil
+//@   ensures [never-empty] mboxfull(p.message)
+//@   ensures [first]      !old(mboxfull(p.message)) ==> f && mbox(p.message).Err == err
+//@   ensures [settled]    old(mboxfull(p.message)) && (old(mbox(p.message)).Err != nil || old(mbox(p.message)).Value != nil) ==> !f && mbox(p.message) == old(mbox(p.message))
+//@   assigns mbox(p.message)
+
+// Wait on a settled promise does not block and leaves the result in place.
+//@ func (*Promise).Wait
+//@   property C19
+//@   requires p != nil && p.message != nil && mboxfull(p.message)
+//@   ensures [in-place] mboxfull(p.message) && mbox(p.message) == old(mbox(p.message))
+
+// An immutable, non-relaying promise takes the value of the first Fulfill; the second is refused and changes nothing;
+// a Wait afterwards does not block and finds the first value.
+//@ func verifLemmaFulfillOnce
+//@   property C19
+//@   lemma
+//@   requires p != nil && p.message != nil && !p.mutable && !p.relay && !mboxfull(p.message)
+//@   ensures e1 == nil && e2 != nil && mboxfull(p.message) && mbox(p.message).Value == v1 && mbox(p.message).Err == nil
+func verifLemmaFulfillOnce(p *Promise, v1, v2 interface{}) (e1, e2 error) {
+	e1 = p.Fulfill(v1)
+	e2 = p.Fulfill(v2)
+	p.Wait()
+	return
+}
